@@ -87,7 +87,7 @@ pub fn search_lex(tier: &str) -> Option<Value> {
     let wss = ["", " ", "\t", "\u{0085}", "\u{200E}", "\u{200F}", "\u{2028}", "\u{000B}", "\r"];
     for pre in ["%%\n", "%x AA\n%%\n<AA>", "%%\n<INITIAL>"] {
         for re_ in ["a", "a\\", "a\\\\", "a\\\\\\", "\\", "[a-z]+\\", "é\\"] {
-            for w1 in wss { for w2 in wss { for name in ["'A'", "\"b\"", ";", "", "<AA>", "'é'"] { for tail in ["\n", "", " \n", "\u{2028}"] {
+            for w1 in wss { for w2 in wss { for name in ["'A'", "\"b\"", ";", "", "<AA>", "'é'", "<>'A'", "<é>'A'", "<+AA>'A'", "<-AA>;", "<+>'A'", "<+é>;"] { for tail in ["\n", "", " \n", "\u{2028}"] {
                 let s = format!("{}{}{}{}{}{}", pre, re_, w1, w2, name, tail);
                 let o = run_lex(&s);
                 if o.fails { return Some(witness("c12_lex", json!({"text": s}), &o)); }
